@@ -134,6 +134,9 @@ func init() {
 				specs = append(specs, LLSpec{File: "c04.c", Func: "harness_tv_" + n, Reach: []string{"tv/done"},
 					Cfg: func(c *llsym.Config, thorough bool) {
 						c.Spec = func() llsym.SpecPath { return &tvSpec{file: file, funcs: &used} }
+						if c.CheckTimeout < 240000 {
+							c.CheckTimeout = 240000 // the divider/multiplier equivalences of `ideal` take ~20-60 s on a busy machine
+						}
 					}})
 			}
 			rc.runLL(specs)
